@@ -25,11 +25,14 @@ EXTENDS RouterRef, TLC, Json
 CONSTANTS MaxLen,              \* maximal recipe length explored
           ResetComboOnSingle,  \* TRUE: intended design.  FALSE: _stop_combo keeps a one-entry combo (seeded deviation)
           WithTail,                \* TRUE: the recipe is followed by the builtin provider that serves the request
-          Req,                 \* "A": a request of origin A;  "U": a request whose type cannot be normalised
+          Req,                 \* "A": a request of origin A;  "U": a request whose type cannot be normalised;
+                               \* "F": an unnormalisable request that the builtin recipe refuses TERMINALLY (an unresolvable ForwardRef)
           EmitCases            \* TRUE: print every finished case as a JSON record
 
 \* for an unnormalisable request the builtin recipe has nothing to offer
-Full(r) == IF Req = "A" THEN FullIf(WithTail, r) ELSE IF WithTail THEN Append(r, [c |-> "predN", h |-> "plain"]) ELSE r
+Full(r) == IF Req = "A" THEN FullIf(WithTail, r)
+           ELSE IF ~WithTail THEN r
+           ELSE Append(r, IF Req = "F" THEN [c |-> "predY", h |-> "abort"] ELSE [c |-> "predN", h |-> "plain"])
 MC == IF Req = "A" THEN {"exA", "predY"} ELSE {"predY"}
 \* LocatedRequestRouter.route_handler: origin = normalize_type(type).origin, or a fresh object() that no table contains
 OriginClass == IF Req = "A" THEN "exA" ELSE "no such origin"
@@ -134,6 +137,14 @@ Decline == /\ phase = "search" /\ ~ret.has
            /\ frames' = SetTop([Top EXCEPT !.prev = Top.cur, !.cur = 0])
            /\ UNCHANGED <<rec, phase, bi, combo, items, ret, log, res>>
 
+\* the consulted handler raises a terminal CannotProvide: every _send_inner activation re-raises it
+Abort == /\ phase = "search" /\ ~ret.has
+         /\ Top.cur # 0 /\ ~Top.wait
+         /\ R[Top.cur].h = "abort"
+         /\ frames' = <<>>
+         /\ ret' = [has |-> TRUE, ok |-> FALSE, term |-> <<>>]
+         /\ UNCHANGED <<rec, phase, bi, combo, items, log, res>>
+
 \* the consulted handler calls mediator.provide_from_next(): send_chaining(request, search_offset)
 FromNext == /\ phase = "search" /\ ~ret.has
             /\ Top.cur # 0 /\ ~Top.wait
@@ -158,7 +169,7 @@ Finish == /\ phase = "search" /\ ret.has /\ frames = <<>>
           /\ phase' = "done"
           /\ UNCHANGED <<rec, bi, combo, items, frames, log>>
 
-Next == AddProvider \/ StartBuild \/ Register \/ Finalize \/ Route \/ FrameFail \/ Return \/ Decline
+Next == AddProvider \/ StartBuild \/ Register \/ Finalize \/ Route \/ FrameFail \/ Return \/ Decline \/ Abort
         \/ FromNext \/ Resume \/ Finish
 
 Spec == Init /\ [][Next]_vars
@@ -178,6 +189,9 @@ NestedBehind == \A k \in 2..Len(frames) : frames[k].cur = 0 \/ frames[k].cur > f
 
 \* a chained function is applied exactly once in the produced loader
 ChainOnce == phase = "done" /\ res.ok => \A a, b \in 1..Len(res.term) : a # b => res.term[a] # res.term[b]
+
+\* a terminal refusal ends the request at once: nothing is consulted after the aborting provider
+AbortIsLast == phase = "done" => \A a \in 1..Len(log) : R[log[a]].h = "abort" => (a = Len(log) /\ ~res.ok)
 
 \* a successful request never consults a provider twice
 NoTwiceOnSuccess == phase = "done" /\ res.ok => \A a, b \in 1..Len(log) : a # b => log[a] # log[b]
